@@ -645,8 +645,8 @@ RND = ("Slice rnd: pseudo-random cases, a pure function of (seed, index): 1-3 op
        "constructor of the term language, formats assembled from literals and directives (quick 1600 / 800 cases, thorough 24000 / 8000), "
        "run through the specification by TLC and replayed like every other slice. ")
 ADDENDA = {
-    "C01": RND + "Panic slice (panics that cross a nested printer, F10) and the builder histories (accessors, Reset, Take at every point) judged by this property's clauses; API slices scribbled before every stage.",
-    "C02": RND + "A second pair of instantiations whose secrets start with marker fragments; registry families of built-in / byte-container / byte-kinded element types with leak probes (an unsafe sentinel after the value, next operand, next call); every writing interface of package io a builder satisfies.",
+    "C01": RND + "Panic slice (panics that cross a nested printer, F10) and the builder histories (accessors, Reset, Take at every point; the builder among its own operands by value, by pointer and nested; a panic that crosses Print with a caller that recovers and keeps the builder) judged by this property's clauses; API slices scribbled before every stage.",
+    "C02": RND + "A second pair of instantiations whose secrets start with marker fragments; registry families of built-in / byte-container / byte-kinded element types with leak probes (an unsafe sentinel after the value, next operand, next call) and never-registered namesakes (function-local types with the qualified name of a registered one); every writing interface of package io a builder satisfies.",
     "C03": RND + "Builder histories judged by this property's clauses; ill-formed lines are named here too.",
     "C04": "Width and precision sweep 0..300 and powers of two / ten; narrow kinds inside containers; interface-kinded reflect.Values; maps with nil interface keys.",
     "C05": RND + "Registry families as in C02 plus statically typed slices / arrays of each type; panic payloads classified under the declaration of the object that raised them.",
